@@ -36,7 +36,7 @@ RULE = ('each run = generated tree/repository + Manifest layout with 1-3 token-l
         'update (whole tree, sub-directory), create with every profile; a third of the runs are non-benign update '
         'histories; non-trivial = a corruption or odd state was applied; distinct = distinct seam event-log digest')
 PLAN = {'quick': {'n': 10000, 'budget_s': 90, 'block': 30},
-        'thorough': {'n': 80000, 'budget_s': 1200, 'block': 150}}
+        'thorough': {'n': 500000, 'budget_s': 2400, 'block': 150}}
 ASSUMPTIONS = ['Manifest texts are valid UTF-8 and valid compressed streams (the statement\'s scope); codec and Unicode-decoding errors of deliberately undecodable files are out of scope',
                'an OSError is genuine if a direct probe (stat/open) of the path it names fails with the same errno']
 
